@@ -51,6 +51,12 @@ def _mk(kind, bs):
         return K.RQKernel(batch_shape=bsz)
     if kind == "linear":
         return K.LinearKernel(batch_shape=bsz)
+    if kind == "rbf+linear":
+        return K.RBFKernel(batch_shape=bsz) + K.LinearKernel(batch_shape=bsz)
+    if kind == "rbf*linear":
+        return K.RBFKernel(batch_shape=bsz) * K.LinearKernel(batch_shape=bsz)
+    if kind == "scale(rbf+rq)":
+        return K.ScaleKernel(K.RBFKernel(batch_shape=bsz) + K.RQKernel(batch_shape=bsz), batch_shape=bsz)
     raise KeyError(kind)
 
 
@@ -77,6 +83,42 @@ def kernel(S, kind, pbs, dbs1, dbs2):
             xb2 = x2[_bidx(b, dbs2, len(out_bs))]
             want = as_sym_arr(SH.get(dense(rep(xb1, xb2))))
             S.prove_eq(Kb[b], want, "kernel element %s = replica" % (list(b),))
+
+
+def kernel_index(S, kind, B, diag):
+    """batch-indexing a batched kernel / its lazily evaluated matrix gives replica i and leaves the batched kernel intact:
+       the batched evaluation AFTER the indexing still equals the replicas element by element"""
+    pbs = (B,)
+    k = _mk(kind, pbs)
+    for p in k.parameters():
+        p.requires_grad_(False)
+    declare_params(S, k, "p_", scale=0.4)
+    x1 = S.randn(B, 2, 2, scale=0.7); S.sym_tensor(x1, "x")
+    x2 = S.randn(B, 3, 2, scale=0.7); S.sym_tensor(x2, "z")
+    with S.mode():
+        reps = []
+        for b in range(B):
+            rep = _mk(kind, ())
+            with torch.no_grad():
+                src = dict(k.named_parameters())
+                for nme, p in rep.named_parameters():
+                    p.copy_(src[nme][b])
+            reps.append(as_sym_arr(SH.get(dense(rep(x1[b], x2[b])))))
+        lazy = k(x1, x2)
+        for b in reversed(range(B)):
+            S.prove_eq(dense(lazy[b]), reps[b], "lazy kernel matrix [%d] = replica %d" % (b, b))
+            S.prove_eq(dense(k[b](x1[b], x2[b])), reps[b], "kernel[%d](x[%d]) = replica %d" % (b, b, b))
+        Kb = dense(k(x1, x2))
+        for b in range(B):
+            S.prove_eq(Kb[b], reps[b], "batched kernel AFTER indexing: element %d = replica" % b)
+        if diag:
+            dg = k(x1, x1, diag=True)
+            for b in range(B):
+                rep = _mk(kind, ())
+                with torch.no_grad():
+                    for nme, p in rep.named_parameters():
+                        p.copy_(src[nme][b])
+                S.prove_eq(dg[b], as_sym_arr(SH.get(rep(x1[b], x1[b], diag=True))), "diag element %d = replica diag" % b)
 
 
 def mean_noise(S, pbs, dbs):
@@ -179,11 +221,19 @@ def scenarios(tier, seed):
             add("mean_noise", pbs=list(p), dbs=list(d))
         add("exact_gp", n=2, m=1, shared_x=True)
         add("exact_gp", n=2, m=1, shared_x=False)
+        for kind in ("rbf+linear", "rbf*linear", "scale(rbf+rq)", "scale_rbf"):
+            add("kernel_index", kind=kind, B=2, diag=True)
     else:
         for kind in ("rbf", "scale_rbf", "rq", "linear"):
             for (p, d) in pairs:
                 add("kernel", kind=kind, pbs=list(p), dbs1=list(d), dbs2=list(d))
             add("kernel", kind=kind, pbs=[2], dbs1=[2, 1], dbs2=[1, 2] if False else [2])
+        for kind in ("rbf", "rq", "linear", "rbf+linear", "rbf*linear", "scale(rbf+rq)", "scale_rbf"):
+            for B in (2, 3):
+                add("kernel_index", kind=kind, B=B, diag=True)
+        for kind in ("rbf+linear", "rbf*linear", "scale(rbf+rq)"):
+            for (p, d) in pairs[:8]:
+                add("kernel", kind=kind, pbs=list(p), dbs1=list(d), dbs2=list(d))
         for (p, d) in pairs:
             add("mean_noise", pbs=list(p), dbs=list(d))
         for shared in (True, False):
